@@ -118,6 +118,8 @@ def build_lm(env, nparam, cached, solver_may_fail, strategy_real=None):
     env.stub(optm, 'modjac', lambda model, input=None, **k: ((J,),))
     if cached:
         opt.loss = ghost.loss()          # precondition: the cached loss is the loss at the current parameters
+        # ... and an earlier call left an arbitrary number of rejections behind: the budget is per CALL (entry clause: reset to 0)
+        opt.reject_count = env.scalar('rc_previous_call', nonneg=True, regimes=('zero', 'generic', 'large'), integer=True)[0]
     return opt, ghost, solves, strat
 
 
